@@ -8,7 +8,10 @@
 //	ev     = H<id>:<0|1>:<kind>   client HEADERS on stream id, END_STREAM flag, kind ok | cl<n> | bad | tr
 //	         D<id>:<n>:<0|1>      client DATA of n bytes, END_STREAM flag
 //	         R<id>                client RST_STREAM
+//	         D<id>:<n>:<0|1>:<pad> the same with the PADDED flag and pad >= 1 bytes of padding
 //	         F<id>                the handler of stream id returns        (its END_STREAM frame goes in flight)
+//	         B<id>:<n>            the handler of stream id writes n (1..4096) body bytes and returns: response HEADERS,
+//	                              then DATA(n, END_STREAM), which waits in the stream's queue for the send windows
 //	         P<id>                the handler of stream id panics         (its handlerPanicRST goes in flight)
 //	         W                    the frame in flight has been written    (wroteFrame)
 //	         S | Sa | Si<val>     client SETTINGS: empty / ACK / SETTINGS_INITIAL_WINDOW_SIZE=val
@@ -21,7 +24,8 @@
 //	         A                    client GOAWAY
 //	         Q                    graceful shutdown requested (serve loop's closeNotifyCh case: goAway(NO_ERROR))
 //	result = <outcome>,...|<maxStreamID>:<curOpenStreams>:<conn send window>:<initial window>:<live streams with send window>
-//	outcome = ok | rst:<code> | ga:<code> | close | held | skip | queued | busy | nohandler | idle | gone | fail | panic:<which>
+//	          ...:q<id>=<frames queued for the stream in the write scheduler>,...
+//	outcome = blocked (the handler's DATA waits for window) | ok | rst:<code> | ga:<code> | close | held | skip | queued | busy | nohandler | idle | gone | fail | panic:<which>
 //	          fail = a SETTINGS frame was rejected while a GOAWAY was already under way (nothing is sent)
 //	          gone = the frame reader has stopped after a framing-level connection error (readFrames returned);
 //	          the script goes on after a GOAWAY (frames are still processed under the inGoAway rules) and stops
@@ -110,6 +114,19 @@ func exec(op string) string {
 				return "bad-op"
 			}
 			r = v.Data(id, n, f[2] == "1")
+		case e[0] == 'D' && len(f) == 4:
+			n, err := strconv.Atoi(f[1])
+			pad, err2 := strconv.Atoi(f[3])
+			if err != nil || err2 != nil || n < 0 || n > 16000 || pad < 1 || pad > 255 {
+				return "bad-op"
+			}
+			r = v.DataPadded(id, n, f[2] == "1", pad)
+		case e[0] == 'B' && len(f) == 2:
+			n, err := strconv.Atoi(f[1])
+			if err != nil || n < 1 || n > 4096 {
+				return "bad-op"
+			}
+			r = v.HandlerBody(id, n)
 		case e[0] == 'R' && len(f) == 1:
 			r = v.Rst(id)
 		case e[0] == 'F' && len(f) == 1:
@@ -159,6 +176,9 @@ func gen(r *vh.Rand) string {
 	}
 	next := 1
 	evs := []string{"m=" + adv}
+	if r.Chance(1, 3) { // a small send window, so that response bodies get blocked by flow control
+		evs = append(evs, "Si"+r.Pick("0", "1", "4", "5", "9", "100", "1000"))
+	}
 	var used, open, alive []int // client-side guess: streams started, not yet ended by the client, handler not ended
 	del := func(l []int, x int) []int {
 		var o []int
@@ -228,10 +248,21 @@ func gen(r *vh.Rand) string {
 				id := from(alive)
 				open = del(open, id)
 				evs = append(evs, fmt.Sprintf("R%d", id))
-			case x < 15:
+			case x < 14:
 				id := from(alive)
 				alive = del(alive, id)
-				evs = append(evs, fmt.Sprintf("F%d", id))
+				if r.Chance(1, 2) {
+					evs = append(evs, fmt.Sprintf("B%d:%s", id, r.Pick("1", "5", "10", "100", "1000", "4096")))
+				} else {
+					evs = append(evs, fmt.Sprintf("F%d", id))
+				}
+			case x < 15:
+				id := from(open)
+				end := btoi(r.Chance(1, 2))
+				if end == 1 {
+					open = del(open, id)
+				}
+				evs = append(evs, fmt.Sprintf("D%d:%d:%d:%d", id, []int{0, 1, 3}[r.Intn(3)], end, []int{1, 2, 7}[r.Intn(3)]))
 			case x < 16:
 				id := from(alive)
 				alive = del(alive, id)
@@ -260,6 +291,8 @@ func gen(r *vh.Rand) string {
 			evs = append(evs, fmt.Sprintf("D%d:%d:%d", any(), []int{0, 1, 3, 5, 7}[r.Intn(5)], r.Intn(2)))
 		case x < 13:
 			evs = append(evs, fmt.Sprintf("R%d", any()))
+		case x < 14:
+			evs = append(evs, fmt.Sprintf("B%d:%s", any(), r.Pick("1", "7", "300", "4096")))
 		case x < 15:
 			evs = append(evs, fmt.Sprintf("F%d", any()))
 		case x < 16:
@@ -285,7 +318,7 @@ func genCtl(r *vh.Rand, live, other int) string {
 	case x < 6:
 		return "S"
 	case x < 11:
-		return "Si" + r.Pick("0", "1", "65535", "65536", "100000", "2147483647", "2147483648", "4294967295", "2147418112", "2147418113")
+		return "Si" + r.Pick("0", "1", "5", "10", "100", "4096", "65535", "65536", "100000", "2147483647", "2147483648", "4294967295", "2147418112", "2147418113")
 	case x < 14:
 		return "G0"
 	case x < 15:
@@ -295,7 +328,7 @@ func genCtl(r *vh.Rand, live, other int) string {
 	case x < 20:
 		return "U0:" + r.Pick("1", "1000", "2147418112", "2147418113", "2147483647", "0")
 	case x < 27:
-		return fmt.Sprintf("U%d:%s", id, r.Pick("1", "1000", "2147418112", "2147418113", "2147483647", "0", "2147383647"))
+		return fmt.Sprintf("U%d:%s", id, r.Pick("1", "4", "5", "100", "1000", "5000", "2147418112", "2147418113", "2147483647", "0", "2147383647"))
 	case x < 31:
 		return fmt.Sprintf("Y%d:%d:%d", id, []int{0, 1, 3, id, other}[r.Intn(5)], r.Intn(2))
 	case x < 32:
